@@ -64,6 +64,17 @@ type Case struct {
 	ACRM      string // Access-Control-Request-Method ("" = absent)
 	ACRH      string
 	ACRPN     string
+
+	Then []Probe `json:",omitempty"` // further requests served by the same middleware instance, each judged like the first
+}
+
+type Probe struct {
+	Method    string
+	HasOrigin bool
+	Origin    string
+	ACRM      string
+	ACRH      string
+	ACRPN     string
 }
 
 func (c Case) allowAll() bool {
@@ -162,6 +173,26 @@ func check(c Case) vk.Verdict {
 	ran := false
 	app.Use(mw)
 	app.All("/", func(ctx fiber.Ctx) error { ran = true; return ctx.SendString("ok") })
+	v := judge(c, cfg, app, &ran, 0)
+	for i, p := range c.Then {
+		if v.Fail != "" {
+			break
+		}
+		c2 := c
+		c2.Method, c2.HasOrigin, c2.Origin, c2.ACRM, c2.ACRH, c2.ACRPN = p.Method, p.HasOrigin, p.Origin, p.ACRM, p.ACRH, p.ACRPN
+		ran = false
+		v2 := judge(c2, cfg, app, &ran, i+1)
+		v.Fail = v2.Fail
+		v.NonTrivial = v.NonTrivial || v2.NonTrivial
+		v.Classes = append(v.Classes, v2.Classes...)
+	}
+	if len(c.Then) > 0 {
+		v.Classes = append(v.Classes, "several-requests-on-one-instance")
+	}
+	return v
+}
+
+func judge(c Case, cfg cors.Config, app *fiber.App, ranp *bool, nth int) vk.Verdict {
 	var hdr []string
 	if c.HasOrigin {
 		hdr = append(hdr, "Origin", c.Origin)
@@ -179,7 +210,8 @@ func check(c Case) vk.Verdict {
 	get := func(k string) string { return string(r.Response.Header.Peek(k)) }
 	acao, acac, vary := get("Access-Control-Allow-Origin"), get("Access-Control-Allow-Credentials"), get("Vary")
 	allowed, all := c.allowed(), c.allowAll()
-	ctx := fmt.Sprintf("config origins=%q func=%q creds=%v; request %s Origin=%q(present=%v) ACRM=%q", cfg.AllowOrigins, c.FuncAllows, c.Credentials, c.Method, c.Origin, c.HasOrigin, c.ACRM)
+	ran := *ranp
+	ctx := fmt.Sprintf("config origins=%q func=%q creds=%v; request #%d on this instance: %s Origin=%q(present=%v) ACRM=%q", cfg.AllowOrigins, c.FuncAllows, c.Credentials, nth+1, c.Method, c.Origin, c.HasOrigin, c.ACRM)
 
 	if acao != "" {
 		if !allowed {
@@ -279,6 +311,9 @@ func genCase(t *rapid.T) Case {
 	}
 	if rapid.IntRange(0, 3).Draw(t, "func") == 0 {
 		c.FuncAllows = []string{"https://func.test", "http://func.test:81", "https://m\u00fcnchen.func.test"}
+		if rapid.Bool().Draw(t, "funcstar") {
+			c.FuncAllows = append(c.FuncAllows, "*") // an allow function that lets the literal value "*" through
+		}
 	}
 	if rapid.Bool().Draw(t, "am") {
 		c.AllowMethods = rapid.SliceOfN(rapid.SampledFrom([]string{"GET", "POST", "PUT", "DELETE"}), 1, 3).Draw(t, "methods")
@@ -289,6 +324,21 @@ func genCase(t *rapid.T) Case {
 	if rapid.Bool().Draw(t, "eh") {
 		c.ExposeHeaders = []string{"X-Exposed"}
 	}
+	genRequest(t, &c)
+	if rapid.IntRange(0, 2).Draw(t, "more") == 0 {
+		n := rapid.IntRange(1, 3).Draw(t, "nmore")
+		for i := 0; i < n; i++ {
+			c2 := c
+			genRequest(t, &c2)
+			c.Then = append(c.Then, Probe{c2.Method, c2.HasOrigin, c2.Origin, c2.ACRM, c2.ACRH, c2.ACRPN})
+		}
+	}
+	return c
+}
+
+// genRequest draws the request part of a case
+func genRequest(t *rapid.T, c *Case) {
+	c.ACRM, c.ACRH, c.ACRPN = "", "", ""
 	c.Method = rapid.SampledFrom([]string{"GET", "POST", "OPTIONS", "OPTIONS"}).Draw(t, "m")
 	c.HasOrigin = rapid.IntRange(0, 9).Draw(t, "hasorigin") != 0
 	// origin derived from an entry
@@ -319,14 +369,16 @@ func genCase(t *rapid.T) Case {
 		c.Origin = ""
 	case 2:
 		// (the last two: capitals outside ASCII - "in lower case" is not an ASCII-only notion)
-		c.Origin = rapid.SampledFrom([]string{"https://func.test", "http://func.test:81", "HTTPS://FUNC.TEST", "https://M\u00dcNCHEN.func.test", "https://m\u00fcnchen.func.test"}).Draw(t, "fo")
+		c.Origin = rapid.SampledFrom([]string{"https://func.test", "http://func.test:81", "HTTPS://FUNC.TEST", "https://M\u00dcNCHEN.func.test", "https://m\u00fcnchen.func.test", "*", "*"}).Draw(t, "fo")
+	}
+	if n := len(c.FuncAllows); n > 0 && c.FuncAllows[n-1] == "*" && rapid.IntRange(0, 2).Draw(t, "starorigin") == 0 {
+		c.Origin = "*"
 	}
 	if c.Method == "OPTIONS" && rapid.IntRange(0, 3).Draw(t, "pre") != 0 {
 		c.ACRM = rapid.SampledFrom([]string{"PUT", "GET", "DELETE"}).Draw(t, "acrm")
 		c.ACRH = rapid.SampledFrom([]string{"", "X-Custom", "content-type, x-a"}).Draw(t, "acrh")
 		c.ACRPN = rapid.SampledFrom([]string{"", "true", "false"}).Draw(t, "acrpn")
 	}
-	return c
 }
 
 var propCORS = vk.Register(&vk.Prop[Case]{Property: property, Name: "policy", Gen: genCase, Check: check, Quick: 40000, Thorough: 250000})
